@@ -25,6 +25,8 @@ EPS = 2.0 ** -52
 KEY_HYP = "C03-hyperbolic-solver"
 KEY_HYP_ACC = "C03-hyperbolic-bisection-accuracy"
 K_ACC = 2.0 ** 20    # with only KEY_HYP_ACC open the region is asserted with K*K_ACC: order-unity errors still fail
+KEY_LONG = "C03-long-step-accuracy"
+LONG_DTP = 100.0     # known-finding region: elliptic and |dt| > LONG_DTP * P
 KEY_HANG = "C03-hyperbolic-hang"
 KEY_512 = "C03-whfast512-large-step"
 KEY_512_PAD = "C03-whfast512-padding-scale"
@@ -34,21 +36,28 @@ C512 = 0.2           # known-finding region of WHFast512: dt > C512 * min(T_q, 5
 RULE = ("Two-body states generated from elements: e in [0,1-1e-6] u [1+1e-6,50], a and mu=G*M log-uniform over "
         "12 decades each, phase incl. exact peri/apocentre and (hyperbolic) close to the asymptotes, orientation, "
         "dt/P in +-[1e-8,1e3] log-uniform with extra mass on |dt|>P; entry points reb_whfast_kepler_solver "
-        "(ctypes) and one reb_simulation_step of WHFast x4 coordinate systems, SABA1, MERCURIUS, TRACE, WHFast512. "
-        "Oracle: mpmath 60-digit propagation through classical/hyperbolic elements and a bracketed Kepler solve. "
-        "Tolerance K*(delta_cond + eps*|x|), K=1024, delta_cond = oracle output change under 2eps relative "
-        "perturbation of each input.  Every call runs in a forked worker with a CPU-time alarm: no return = "
-        "violation.  Non-trivial = |dt|/P>1, or e>0.9 within 0.1 rad of pericentre, or hyperbolic, or dt<0, or "
-        "|dt|/P<1e-6; distinct by case hash.")
+        "(ctypes) and one reb_simulation_step of WHFast x4 coordinate systems, SABA1, MERCURIUS, TRACE (planet "
+        "massless, or massive for Jacobi/WHDS/SABA) and WHFast512 (avx512 build, dt>0, planet in any of the 8 "
+        "lanes).  Oracle: mpmath 60-digit propagation through classical/hyperbolic elements and a verified "
+        "bracketed Kepler solve.  Tolerance K*(delta_cond + eps*|x|), K=128 for |dt|<=P and 1024 for |dt|>P, "
+        "delta_cond = oracle output change under 2eps relative perturbation of each input; DKD schemes: the "
+        "allowance of the first half step is carried through the second by the oracle.  Every call runs in a "
+        "forked worker with a CPU-time alarm: no return = violation.  Non-trivial = asserted in full and "
+        "(|dt|/P>1, or e>0.9 within 0.1 rad of pericentre, or hyperbolic, or dt<0, or |dt|/P<1e-6); distinct by "
+        "case hash.")
 ASSUMPTIONS = [
-    "mpmath arithmetic and elementary functions at 60 digits are correct (oracle self-test: integrals conserved, "
-    "round trip, to 1e-55)",
-    "the allowed forward error of an exact Kepler step is K=1024 times the oracle's own sensitivity to 2eps input "
-    "perturbations plus eps times the size of the input/output vectors (for DKD schemes: summed over the two half "
-    "steps, the intermediate state being a rounded double)",
+    "mpmath arithmetic and elementary functions at 60 digits are correct (oracle self-test before every run: "
+    "energy, angular momentum, round trip to 1e-50)",
+    "allowed forward error of an exact Kepler step: K times (the oracle's own sensitivity to 2eps relative input "
+    "perturbations + eps times the larger of input and output vector), K=128 (|dt|<=P) / 1024 (|dt|>P); for DKD "
+    "schemes the first half step's allowance propagated through the second half by the oracle",
     "non-termination is decided by a CPU-time budget of 5 s per call (normal cost < 1 ms)",
     "MERCURIUS/TRACE/WHFast512/democratic-heliocentric/barycentric are exact two-body only for a massless planet "
-    "(star at rest at the origin); Jacobi and WHDS also for a massive one",
+    "(star at rest at the origin); Jacobi, WHDS and SABA also for a massive one",
+    "MERCURIUS/TRACE steps in which the integrator itself flags an encounter (with the star) are outside the "
+    "domain ('away from encounters')",
+    "cases whose allowance exceeds 1e-3 of the state (apocentre -> pericentre of e~1 orbits in one half step) are "
+    "checked but not counted as non-trivial",
 ]
 CLASSES = ["direct/elliptic", "direct/hyperbolic", "direct/dt>P", "direct/dt>100P", "direct/peri_high_e",
            "direct/dt<0", "direct/tiny_dt", "direct/near_parabolic", "direct/known_region", "direct/known_hang",
@@ -295,12 +304,17 @@ def judge(ctx, c, bodies, what, extra=None):
         ctx.cls("known_region")
         ctx.stat_max("known_region_err_over_unit_tol", worst)
         return "excluded"
-    if known and not c.get("w512") and ctx.finding_open(KEY_HYP_ACC) and not loose:
-        # order-unity errors repaired, bisection fallback still less accurate than K: assert K*K_ACC
-        ctx.stat_max("known_region_err_over_unit_tol", worst)
+    # findings that excuse a moderate loss of accuracy only (order-unity errors still fail):
+    soft = None
+    if known and not c.get("w512"):
+        soft = KEY_HYP_ACC            # hyperbolic region once the overflow defects are repaired: bisection accuracy
+    elif not c["hyp"] and abs(c["dtP"]) > LONG_DTP and not c.get("w512"):
+        soft = KEY_LONG               # very long elliptic steps: error grows like (dt/P)^2
+    if soft is not None and ctx.finding_open(soft) and not loose:
+        ctx.stat_max("soft_region_err_over_unit_tol:" + soft, worst)
         if worst <= 1024.0 * K_ACC:
             if bad is not None:
-                ctx.excluded(KEY_HYP_ACC)
+                ctx.excluded(soft)
                 ctx.cls("known_region")
                 return "excluded"
             return "asserted"
